@@ -768,7 +768,16 @@ def directions(ctx, rule, comps, roles=None):
         if fb is None:
             ctx.fail(rule, key, "-", "score function %s not found (fail closed)" % ROLE_FNS[role])
             continue
-        alts = U.flatten_phi(ctx.sym(fb).local(0))
+        alts = []
+        for a0 in U.flatten_phi(ctx.sym(fb).local(0)):
+            a1 = S.strip_refs(a0)
+            if a1[0] == "call" and a1[1].endswith(("Option::map_or", "Option::map_or_else")) and len(a1[2]) == 3:
+                # opt.map_or(default, |x| value): the alternatives are the default and what the closure returns
+                mb_ = U.closure_body(ctx, a1[2][2])
+                alts.append(a1[2][1])
+                alts.extend(U.flatten_phi(ctx.sym(mb_).local(0)) if mb_ is not None else [a1])
+            else:
+                alts.append(a0)
         signs = set()
         for a in alts:
             x = a
@@ -1157,6 +1166,22 @@ def component_formulas(ctx, rule):
         while x[0] == "cast":
             x = x[2]
         key = "offset-formula"
+        alt_ok = False
+        e1 = S.strip_refs(e)
+        if e1[0] == "call" and e1[1].endswith("Option::map_or") and len(e1[2]) == 3:
+            # rmatches.iter().min_by_key(|m| m.offset).map_or(0, |m| -(m.offset as isize))
+            src_, st_ = U.chain(e1[2][0])
+            p_ = U.field_path(src_)
+            kb = U.closure_body(ctx, st_[-1][1][0]) if st_ and st_[-1][0] == "min_by_key" and st_[-1][1] else None
+            vb = U.closure_body(ctx, e1[2][2])
+            def off_of_arg(z):
+                z = S.strip_refs(z)
+                while z[0] in ("cast",) or (z[0] == "unop" and z[1] == "Neg"):
+                    z = S.strip_refs(z[2])
+                return z[0] == "field" and z[2] == "offset" and S.strip_refs(z[1]) in (("arg", 2), ("deref", ("arg", 2)))
+            if kb is not None and vb is not None and p_ and p_[2] == ["rmatches"] and \
+                    all(n_[0] in ("iter", "into_iter", "min_by_key") for n_ in st_):
+                alt_ok = off_of_arg(ctx.sym(kb).local(0)) and off_of_arg(ctx.sym(vb).local(0))
         ok = x[0] == "call" and x[1].endswith("Option::unwrap_or") and bool(U.expr_calls(x, "Iterator::min"))
         if ok:
             src, stages = U.chain(x[2][0])
@@ -1164,7 +1189,7 @@ def component_formulas(ctx, rule):
             cb = U.closure_body(ctx, ms[0][1][0]) if ms else None
             ce = S.strip_refs(ctx.sym(cb).local(0)) if cb is not None else None
             ok = ce is not None and ce[0] == "field" and ce[2] == "offset"
-        if ok:
+        if ok or alt_ok:
             ctx.ok(rule, key, fb.where(), "offset = -(smallest matched word position)", nontrivial=True)
         else:
             ctx.fail(rule, key, fb.where(), "score_offset_down is no longer -(min over matches of the word offset)",
